@@ -1,6 +1,7 @@
 import GqlProofs.ValSpec.Spreads
 import GqlProofs.ValSpec.LeafFrag
 import GqlProofs.ValSpec.DefDirs
+import GqlProofs.ValSpec.LinkWitness
 import GqlModel.Validate.Spec.Links
 /-
   C09 — validated documents are completely and correctly linked.
@@ -133,3 +134,143 @@ example :
 
 /-- the walk always succeeds (C02), so the statements above are not vacuous -/
 example (s : Schema) (d : QueryDoc) : ∃ evs, walkDoc s.view d = some evs := walkDoc_isSome s.view d
+
+/-! ## Values, variable uses, variable definitions, inline fragments -/
+
+/-- (a) VALUES.  For a well-parented document (every document that validates is one) the value
+    events of a run are exactly the value nodes the specification lists (`SpecValOcc`: every node of
+    every argument value of `Spec.argSites` and of every variable default value, with the context
+    `Spec.valueLinks` computes — `valueLinks_eq`, `argLinks_eq`), and wherever the specification
+    demands `ExpectedType` / `Definition` (`o.typed`: argument values, and values nested in list /
+    input-object literals of a declared type; not the contents of custom-scalar literals) the event
+    carries exactly the demanded pair:
+      * items of a list literal: the element type and the SAME definition as the list;
+      * fields of an input-object literal: the declared type of the field and its definition;
+      * a single value where a list type is expected keeps the list type (and the definition of
+        the innermost named type) — the walker does not unwrap, neither does the specification;
+      * the default value of a variable: the variable's type and its definition (more than the
+        specification's `opLinks` asks of the top-level default value). -/
+theorem C09_value_links_correct (s : Schema) (d : QueryDoc) (evs : List Event) (hw : walkDoc s.view d = some evs)
+    (hwp : Spec.wellParented s d = true) (hk : ∀ op ∈ d.ops, op.op ∈ parserOpKinds) :
+    (∀ e ∈ evs, ∀ v exp dfn, e.p = .value v exp dfn →
+      ∃ o, SpecValOcc s d o ∧ o.v = v ∧ (o.typed = true → exp = o.exp ∧ dfn = o.dfn)) ∧
+    (∀ o, SpecValOcc s d o →
+      ∃ e ∈ evs, ∃ exp dfn, e.p = .value o.v exp dfn ∧ (o.typed = true → exp = o.exp ∧ dfn = o.dfn)) := by
+  constructor
+  · intro e he v exp dfn hp
+    obtain ⟨_, o, ho, _, exp', dfn', hp', hag⟩ := walkDoc_values_soundW s d evs hw e he (by rw [hp]; trivial)
+    rw [hp] at hp'
+    injection hp' with h1 h2 h3
+    subst h2 h3
+    exact ⟨o, (wValOcc_iff s d hwp hk o).1 ho, h1.symm, fun ht => hag.demanded ht⟩
+  · intro o ho
+    obtain ⟨e, he, _, exp', dfn', hp', hag⟩ := walkDoc_values_completeW s d evs hw o ((wValOcc_iff s d hwp hk o).2 ho)
+    exact ⟨e, he, exp', dfn', hp', fun ht => hag.demanded ht⟩
+
+/-- (b) VARIABLE USES.  `Value.VariableDefinition` of a variable use is written whenever the use is
+    walked while `CurrentOperation = op`, with `op`'s definition of that name (`nil` if it has none),
+    and it is only written then.  So
+    (own)   at its own event a use walked on behalf of `op` (an operation of the document) shows
+            `op`'s definition;
+    (last)  every later event shows, for that node (key: start offset), the definition written by
+            the LAST such walk — in particular the stand-alone walk of a fragment definition
+            (`CurrentOperation = nil`) shows what the last operation that walked the fragment
+            wrote: with several operations spreading one fragment that is the last one in document
+            order, whatever the others declare (the recorded C15 finding, `docS` below);
+    (never) a use that no operation has walked shows no definition (a fragment no operation reaches);
+    (scope) every variable use in the scope of an operation — its own selection set and directives,
+            the directives of its variable definitions, and the directives and selection sets of
+            all fragments it reaches transitively through spreads (`OpArgCall`) — is walked on
+            behalf of that operation (and then shows its definition, by (own)). -/
+theorem C09_variable_use_links_correct (s : Schema) (d : QueryDoc) (evs : List Event) (hw : walkDoc s.view d = some evs) :
+    (∀ e ∈ evs, ∀ op raw ch p exp dfn, e.cur = some op → e.p = .value (.mk .variable raw ch p) exp dfn →
+      op ∈ d.ops ∧ e.links.varDef p.start = Spec.varDefByName op raw) ∧
+    (∀ pre e mid e' post, evs = pre ++ e :: (mid ++ e' :: post) →
+      ∀ op raw ch p exp dfn, e.cur = some op → e.p = .value (.mk .variable raw ch p) exp dfn →
+        NoWrite p.start (mid ++ [e']) → e'.links.varDef p.start = Spec.varDefByName op raw) ∧
+    (∀ pre e' post, evs = pre ++ e' :: post → ∀ k, NoWrite k (pre ++ [e']) → e'.links.varDef k = none) ∧
+    (∀ op ∈ d.ops, ∀ defs args, OpArgCall s.view d op defs args → ∀ o ∈ argOccs s defs args,
+      ∃ e ∈ evs, e.cur = some op ∧ ∃ exp dfn, e.p = .value o.v exp dfn) := by
+  obtain ⟨l, ht⟩ := walkDoc_trace s.view d evs hw
+  refine ⟨?_, ?_, ?_, ?_⟩
+  · intro e he op raw ch p exp dfn hc hp
+    refine ⟨(walkDoc_values_soundW s d evs hw e he (by rw [hp]; trivial)).1 op hc, ?_⟩
+    obtain ⟨pre, post, hsplit⟩ := List.append_of_mem he
+    rw [hsplit] at ht
+    exact trace_own pre e post ht op raw ch p exp dfn hc hp
+  · intro pre e mid e' post hsplit op raw ch p exp dfn hc hp hn
+    rw [hsplit] at ht
+    exact trace_last pre e mid e' post ht op raw ch p exp dfn hc hp hn
+  · intro pre e' post hsplit k hn
+    rw [hsplit] at ht
+    exact trace_none pre e' post ht k hn
+  · intro op hop defs args hc o ho
+    obtain ⟨e, he, hcur, exp, dfn, hp, _⟩ := walkDoc_scope_values s d evs hw op hop defs args hc o ho
+    exact ⟨e, he, hcur, exp, dfn, hp⟩
+
+/-- (b), the case in which the link is the specified one whatever the order of the operations: if
+    all operations declare every variable identically (in particular: a document with one
+    operation) and distinct variable uses start at distinct offsets (every parse), then every event
+    about a use of `$raw` shows the definition of `raw` of ANY operation of the document — or
+    nothing, and that only while no operation has walked the use. -/
+theorem C09_variable_use_links_agreeing (s : Schema) (d : QueryDoc) (evs : List Event) (hw : walkDoc s.view d = some evs)
+    (hagree : ∀ op ∈ d.ops, ∀ op' ∈ d.ops, ∀ raw, Spec.varDefByName op raw = Spec.varDefByName op' raw)
+    (huniq : VarStartsDistinct evs) :
+    ∀ pre e' post, evs = pre ++ e' :: post → ∀ raw ch p exp dfn, e'.p = .value (.mk .variable raw ch p) exp dfn →
+      (e'.links.varDef p.start = none ∧ NoWrite p.start (pre ++ [e'])) ∨
+      ∀ op ∈ d.ops, e'.links.varDef p.start = Spec.varDefByName op raw :=
+  walkDoc_varlinks_agreeing s d evs hw hagree huniq
+
+/-- (c) VARIABLE DEFINITIONS: every variable-definition event is about a variable definition of an
+    operation of the document and carries the definition of its named type; every variable
+    definition has such an event. -/
+theorem C09_variable_definition_links_correct (s : Schema) (d : QueryDoc) (evs : List Event)
+    (hw : walkDoc s.view d = some evs) :
+    (∀ e ∈ evs, ∀ v dfn, e.p = .variable v dfn → (∃ op ∈ d.ops, v ∈ op.vars) ∧ dfn = s.type? v.type.name) ∧
+    (∀ op ∈ d.ops, ∀ v ∈ op.vars, ∃ e ∈ evs, e.p = .variable v (s.type? v.type.name)) := by
+  constructor
+  · intro e he v dfn hp
+    obtain ⟨l, hb⟩ := walkDoc_built s.view d evs hw
+    obtain ⟨op, hop, hv, _, hd⟩ := hb.varDef_sound e he v dfn hp
+    exact ⟨⟨op, hop, hv⟩, hd⟩
+  · intro op hop v hv
+    obtain ⟨e, he, _, hp⟩ := ((walkDoc_reach s.view d evs hw).1 op hop).varDefs v hv
+    exact ⟨e, he, hp⟩
+
+/-- (d) INLINE FRAGMENTS: `InlineFragment.ObjectDefinition` is the ENCLOSING type (the declarative
+    parent type of the node, `t.parent`) — for every inline-fragment event and every inline fragment
+    of the document — not the definition of the type condition (`Spec.inlineType s t.parent tc`),
+    which is what the property text and `Spec.selLinks` ask for. -/
+theorem C09_inline_fragment_link_is_parent (s : Schema) (d : QueryDoc) (evs : List Event)
+    (hw : walkDoc s.view d = some evs) (hwp : Spec.wellParented s d = true) :
+    (∀ e ∈ evs, ∀ f par, e.p = .inlineFragment f par →
+      (⟨par, .inline f.typeCond f.dirs f.sel f.pos⟩ : Spec.TSel) ∈ Spec.docSels s d) ∧
+    (∀ t ∈ Spec.docSels s d, ∀ tc dirs sub p, t.sel = .inline tc dirs sub p →
+      ∃ e ∈ evs, e.p = .inlineFragment ⟨tc, dirs, sub, p⟩ t.parent) := by
+  constructor
+  · intro e he f par hp
+    have := walkDoc_w s.view d evs hw e he
+    rw [hp] at this
+    exact (inDocW_iff s d hwp _ _).1 this
+  · intro t ht tc dirs sub p hs
+    have ht' : (⟨t.parent, .inline tc dirs sub p⟩ : Spec.TSel) ∈ Spec.docSels s d := by
+      rw [← hs]
+      exact ht
+    exact walkDoc_hasW s.view d evs hw _ _ ((inDocW_iff s d hwp t.parent _).2 ht')
+
+open Gql.Validate.LinkWitness in
+/-- (d), the counterexample to the property's wording, kernel-checked: the document
+    `{ ab { ... on A { o { id } } } }` passes validation against
+    `type Query { ab: AB } type T { id: ID } type A { o: T } union AB = A`; its one inline fragment
+    (offset 7) is linked to `AB`, the enclosing type; the specification demands the definition of
+    the type condition, `A` (`linkscheck` reports `WRONG,inlineFragment,obj,7,A,AB`, and so does
+    `vcheck -prop C09` on the real walker: the recorded known finding). -/
+theorem C09_inline_fragment_link_counterexample :
+    validate defaultRules schemaI docI = .ok [] ∧
+    (walkDoc schemaI.view docI).map (fun evs => evs.filterMap fun e =>
+      match e.p with
+      | .inlineFragment f par => some (f.pos.start, par.map (·.name))
+      | _ => none) = some [(7, some (str "AB"))] ∧
+    (Spec.inlineType schemaI (schemaI.type? (str "AB")) (str "A")).map (·.name) = some (str "A") ∧
+    str "A" ≠ str "AB" := by
+  refine ⟨by decide +kernel, by decide +kernel, by decide +kernel, by decide⟩
